@@ -1,5 +1,10 @@
 // kvrun runs, for one property, the correspondence check (model vs real code on the same inputs) and the
 // property oracle on the real code, and writes a JSON result for the `check` runner.
+// The library's go.mod says `go 1.16`: built as a main module of its own (its tests, an application that vendors it with an old
+// language version) it runs with the pre-1.21 meaning of panic(nil) - recover() returns nil. The harness runs the library under
+// that setting, so that "panic(any value)" includes the one value recover cannot tell from "no panic".
+//
+//go:debug panicnil=1
 package main
 
 import (
